@@ -51,6 +51,10 @@ ASSUMPTIONS = [
 ]
 
 GC_EVERY = 1
+# calls that reach Graph.remove(iterable): the only place of the alphabet's code paths that iterates a
+# set of IR objects (hash = address), so the *choice* of the node named in a rejection is not a
+# function of the history
+SET_ORDERED = {"remove", "c_rnv"}
 
 
 # =============================================================================================
@@ -121,12 +125,30 @@ def plain_run(S, items, cps):
     return w, obs
 
 
-def first_divergence(items, a, b):
+def first_divergence(items, a, b, notes=None):
     """First step or checkpoint at which two observations differ: (index, what, detail) or None."""
+    notes = {} if notes is None else notes
     cps = sorted(set(a.checkpoints) & set(b.checkpoints))
     ci = 0
     for i, (x, y) in enumerate(zip(a.results, b.results)):
-        if x != y:
+        if x[0] == "exc" and y[0] == "exc":
+            # the raise site is localisation, not an observable
+            if x[1:3] != y[1:3]:
+                if x[1] == y[1] and items[i][0] in SET_ORDERED:
+                    # Graph.remove checks `for node in frozenset(nodes)`: which offending node is found
+                    # first (and so which of its two messages is raised) depends on object addresses
+                    notes["report_only_graph_remove_names_other_node"] = \
+                        notes.get("report_only_graph_remove_names_other_node", 0) + 1
+                elif x[1] == y[1] and x[4] is not None and x[4] == y[4]:
+                    # same exception type from the same raise statement, another object named in the
+                    # message: Graph.remove & co. iterate a set of nodes, whose order depends on object
+                    # addresses, which differ between any two runs.  Not attributable to the journal.
+                    notes["report_only_other_object_named_by_same_raise_statement"] = \
+                        notes.get("report_only_other_object_named_by_same_raise_statement", 0) + 1
+                    pass
+                else:
+                    return i, "result", (x, y)
+        elif x != y:
             return i, "result", (x, y)
         while ci < len(cps) and cps[ci] <= i:
             if cps[ci] == i and a.checkpoints[i] != b.checkpoints[i]:
@@ -210,7 +232,7 @@ def judge(S, items, gc_check=True, confirm=True):
     info["raised_steps"] = sum(1 for r in jobs.results if r[0] == "exc")
 
     # ---- differential ------------------------------------------------------------------------
-    div = first_divergence(items, plain, jobs)
+    div = first_divergence(items, plain, jobs, info)
     info["steps_compared"] = sum(1 for r in jobs.results[: (div[0] if div else len(jobs.results))] if r[0] not in ("marker", "skip"))
     info["checkpoints_compared"] = sum(1 for c in cps if div is None or c < div[0])
     if div is not None:
